@@ -75,31 +75,75 @@ example : zReplay exUnsat [[3, 1], [2, 4, 0, 4]] = some (exUnsat ++ [[(0, false)
 example : ¬ ∃ σ, Sat σ exUnsat :=
   replay_empty_unsat (ps := [[3, 1], [2, 4, 0, 4]]) (by decide)
 
+/-- The traces of `solve_cnf` are replayable by `logic.resolution`: replaying the returned proofs on
+the (de-duplicated) input the way `proofrec.solve_cnf` and `zChaff.solve` do ends in the empty
+clause, so `assert contra_pt.prop == false` cannot fail.  (Wherever the verified checker's step
+applies, the macro computes the same clause: `macroResolve_of_resolveStep`.) -/
+theorem solver_trace_replays {fuel : Nat} {cnf : CNF} {o : Oracle} {c' : CNF}
+    {ps : List (Nat × List Nat)} (h : solveCnf fuel cnf o = .unsat c' ps) :
+    proofrecCheck (cnf.map dedup) (ps.map (·.2)) = true :=
+  proofrecCheck_of_checkProofs (proofs_valid h)
+
+example : proofrecCheck (exUnsat.map dedup) [[3, 1], [2, 4, 0, 4]] = true :=
+  solver_trace_replays exUnsat_run
+
 /-! ### termination -/
 
-/-- PARTIAL termination of `solve_cnf`'s main loop: on every run that learns no non-empty clause
-(`noLearnRun`: the run ends by `satisfiable` or by a conflict analysed to the empty clause — the
-path without backjumping), `#variables + 1` iterations of `while True` are enough: the model with
-that much fuel answers `sat` or `unsat`, never an error.  Each `undecided` round assigns a variable
-that was unassigned, propagation never unassigns one.
-MISSING for `solve_terminates`: (1) runs with backjumps — the measure that increases is
-`Σ_{entries} (n+1)^(n − level)` (a backjump to level `b` removes entries above `b` and the learned
-clause, all of whose literals are negated decisions of distinct levels, becomes unit and adds an
-entry at `b`); this needs the invariants "no clause is all-false under the trail restricted to a
-lower level", "one decision per level", "clauses repeat no literal"; (2) a bound for the loop of
-`analyze_conflict`, which can re-introduce a variable: the measure is `Σ_{literals} 2^(position of
-the literal's variable in the trail)`.  Neither is proved; no non-terminating input is known
-(searched for with time limits). -/
-theorem solve_terminates_partial {fuel : Nat} {cnf : CNF} {o : Oracle}
+/-- The `while True` of `analyze_conflict` ends.  In a state satisfying the trail invariants
+(`TrailOK`: reasons are unit under the earlier trail; `TrailOrd`: the other literals of a reason
+were assigned before the propagated one; clauses repeat no literal), started on a clause all of
+whose literals are false, `2^(trail length)` rounds are enough: the measure
+`Σ_{literals} 2^(trail position of the variable)` goes down in every resolution step, although a
+variable resolved away can come back. -/
+theorem analyze_terminates {cnf : CNF} {tr : Trail} {level : Nat} (ht : TrailOK cnf tr level)
+    (ho : TrailOrd cnf tr) (hnd : ∀ c ∈ cnf, c.Nodup) {af : Nat} (haf : 2 ^ tr.length ≤ af)
+    (proof : List Nat) {clause : Clause} (orc : List Clause) (hf : AllFalse tr clause)
+    (hc : clause.Nodup) : ∃ res, analyze af cnf tr proof clause orc = .ok res :=
+  analyze_terminates' ht ho hnd haf proof orc hf hc
+
+/-- `x` propagated from clause 0, conflict in clause 1: one resolution, `2^1` rounds suffice -/
+example : analyze 2 [[(0, true)], [(0, false)]] [⟨0, true, false, 0, 0⟩] [1] [(0, false)] []
+    = .ok ([1, 0], [], []) := by rfl
+
+/-- `solve_cnf` TERMINATES: for every CNF and every set order, `termFuel n = n·(n+1)^n + 2^n + 1`
+rounds (`n` = number of variables) are enough — with that much fuel the model never answers an
+error, so it answers `sat` or `unsat`.  The invariants: one decision per level, no clause is
+all-false under the trail cut at a lower level, clauses repeat no literal, the learned clause
+consists of negated decisions of distinct levels and is unit after the backjump; the measure
+`Σ_{entries} (n+1)^(n − level)` rises in every round (`decide_step`, `backjump_step`). -/
+theorem solve_terminates {fuel : Nat} {cnf : CNF} {o : Oracle}
+    (h : termFuel (varsOf (cnf.map dedup)).length ≤ fuel) : ∀ e, solveCnf fuel cnf o ≠ .error e :=
+  solveCnf_terminates h
+
+example : termFuel (varsOf (exUnsat.map dedup)).length = 23 := by decide
+example : ∀ e, solveCnf 100 exUnsat ⟨[0,1],[]⟩ ≠ .error e := solve_terminates (by decide)
+
+/-- Total correctness of `solve_cnf`: with `termFuel n` rounds the answer is `satisfiable` with
+an assignment satisfying every clause, or `unsatisfiable` with proofs that pass the verified
+checker, and then no assignment satisfies the input. -/
+theorem total_correctness {fuel : Nat} {cnf : CNF} {o : Oracle}
+    (h : termFuel (varsOf (cnf.map dedup)).length ≤ fuel) :
+    (∃ a, solveCnf fuel cnf o = .sat a ∧ isSolution cnf a = true) ∨
+    (∃ c' ps, solveCnf fuel cnf o = .unsat c' ps ∧ checkProofs cnf ps = true ∧ ¬ ∃ σ, Sat σ cnf) := by
+  cases hr : solveCnf fuel cnf o with
+  | sat a => exact Or.inl ⟨a, rfl, sat_sound hr⟩
+  | unsat c' ps => exact Or.inr ⟨c', ps, rfl, proofs_valid hr, unsat_sound hr⟩
+  | error e => exact absurd hr (solve_terminates h e)
+
+example : (∃ a, solveCnf 300 exSat ⟨[2,1,0],[]⟩ = .sat a ∧ isSolution exSat a = true) ∨
+    (∃ c' ps, solveCnf 300 exSat ⟨[2,1,0],[]⟩ = .unsat c' ps ∧ checkProofs exSat ps = true ∧
+      ¬ ∃ σ, Sat σ exSat) := total_correctness (by decide)
+
+/-- A sharper bound on the path without learning: on every run that learns no non-empty clause
+(`noLearnRun`), `#variables + 1` rounds are enough. -/
+theorem solve_terminates_no_learning {fuel : Nat} {cnf : CNF} {o : Oracle}
     (hnl : noLearnRun fuel cnf o = true) (hfuel : (varsOf (cnf.map dedup)).length < fuel) :
     ∀ e, solveCnf fuel cnf o ≠ .error e :=
   solveCnf_noLearn_terminates hnl hfuel
 
 example : noLearnRun 4 exSat ⟨[2,1,0],[]⟩ = true := by rfl
-example : solveCnf 4 exSat ⟨[2,1,0],[]⟩ = .sat [(2, true), (1, false), (0, true)] := by rfl
 example : ∀ e, solveCnf 4 exSat ⟨[2,1,0],[]⟩ ≠ .error e :=
-  solve_terminates_partial (by rfl) (by decide)
-/-- `exUnsat` needs a backjump: not covered -/
+  solve_terminates_no_learning (by rfl) (by decide)
 example : noLearnRun 100 exUnsat ⟨[0,1],[]⟩ = false := by rfl
 
 end Holpy.C15
